@@ -19,6 +19,32 @@ func main() {
 		cmdVerify(os.Args[2:])
 	case "check":
 		cmdCheck(os.Args[2:])
+	case "funcs":
+		eng := NewEngine("/repo")
+		if err := eng.Load(strings.Split(os.Args[2], ",")); err != nil {
+			fmt.Println(err)
+			os.Exit(2)
+		}
+		var ks []string
+		for k := range eng.funcs {
+			ks = append(ks, k)
+		}
+		sort.Strings(ks)
+		for _, k := range ks {
+			if len(os.Args) < 4 || strings.Contains(k, os.Args[3]) {
+				fmt.Println(k)
+			}
+		}
+		var cs []string
+		for k := range eng.callSigs {
+			cs = append(cs, k)
+		}
+		sort.Strings(cs)
+		for _, k := range cs {
+			if len(os.Args) >= 4 && strings.Contains(k, os.Args[3]) {
+				fmt.Println("call:", k, eng.callSigs[k].names)
+			}
+		}
 	default:
 		fmt.Fprintln(os.Stderr, "unknown command", os.Args[1])
 		os.Exit(2)
